@@ -256,7 +256,10 @@ pub fn catch<T>(f: impl FnOnce() -> T) -> Result<T, String> {
 }
 
 pub fn silence_panics() {
-    std::panic::set_hook(Box::new(|_| {}));
+    // VERIF_SHOW_PANICS=1 keeps the default hook (debugging aid)
+    if std::env::var("VERIF_SHOW_PANICS").is_err() {
+        std::panic::set_hook(Box::new(|_| {}));
+    }
 }
 
 /// Run `f` on a worker thread with a wall-clock cap.  Err(None) = timed out (the worker is
